@@ -11,6 +11,7 @@ import (
 	"io"
 	"os"
 	"path/filepath"
+	"strings"
 	"sync"
 	"testing"
 	"time"
@@ -102,11 +103,21 @@ type scenario struct {
 	// Load: restore the outputs (Registry.LoadOutputs) with the blob of output Missing absent from the cache
 	Load    bool `json:"load,omitempty"`
 	Missing int  `json:"missing_blob_of_output,omitempty"`
+	// NoCache: the output hash of a no-cache target / a build with the cache disabled (Registry.GetNoCacheOutputHash)
+	NoCache bool `json:"no_cache_output_hash,omitempty"`
+	// Callers > 0: that many goroutines call LoadOutputs for the same target at the same time (nothing is missing)
+	Callers int `json:"concurrent_load_callers,omitempty"`
 }
 
 func (sc scenario) name() string {
+	if sc.Callers > 0 {
+		return fmt.Sprintf("load/outputs=%d/%s/callers=%d", sc.Outputs, sc.Kind, sc.Callers)
+	}
 	if sc.Load {
 		return fmt.Sprintf("load/outputs=%d/%s/missing=%d", sc.Outputs, sc.Kind, sc.Missing)
+	}
+	if sc.NoCache {
+		return fmt.Sprintf("no-cache-hash/outputs=%d/%s", sc.Outputs, sc.Kind)
 	}
 	return fmt.Sprintf("outputs=%d/%s", sc.Outputs, sc.Kind)
 }
@@ -126,6 +137,9 @@ func (sc scenario) runLoad(t *testing.T, cfg vs.Config, ws string, tgt *model.Ta
 	})
 	if err != nil || tr == nil {
 		return explore.Exec{Res: &vs.Result{}, Findings: []explore.Finding{{Sig: "LOAD:set-up-write-fails", Detail: fmt.Sprint(err)}}}
+	}
+	if sc.Callers > 0 {
+		return sc.runConcurrentLoad(t, cfg, ws, tgt, contents, be, tr)
 	}
 	removed := 0
 	for k, v := range be.store {
@@ -165,6 +179,68 @@ func (sc scenario) runLoad(t *testing.T, cfg vs.Config, ws string, tgt *model.Ta
 	return ex
 }
 
+// runConcurrentLoad: several dependants need the outputs of the same dependency at the same time (load_outputs=minimal):
+// whenever one LoadOutputs call returns nil, every output of the target is completely restored at that moment.
+func (sc scenario) runConcurrentLoad(t *testing.T, cfg vs.Config, ws string, tgt *model.Target, contents []string, be *pointBackend, tr *gen.TargetResult) explore.Exec {
+	ctx := console.WithLogger(context.Background(), nop)
+	os.RemoveAll(filepath.Join(ws, "p"))
+	os.MkdirAll(filepath.Join(ws, "p"), 0o755)
+	tgt.OutputsLoaded = false
+	var mu sync.Mutex
+	var problems []string
+	check := func(caller int) {
+		for i := range contents {
+			p := filepath.Join(ws, "p", fmt.Sprintf("o%d.txt", i))
+			if sc.Kind == "file+dir" && i == 0 {
+				p = filepath.Join(ws, "p", "d0", "f")
+			}
+			b, err := os.ReadFile(p)
+			if err != nil || string(b) != contents[i] {
+				mu.Lock()
+				problems = append(problems, fmt.Sprintf("caller %d returned nil but %s is %q (%v), expected %q", caller, strings.TrimPrefix(p, ws+"/"), b, err, contents[i]))
+				mu.Unlock()
+			}
+		}
+	}
+	var errs []error
+	res := vs.Run(t, cfg, func() {
+		reg := output.NewRegistry(ctx, caching.NewCas(be))
+		var wg sync.WaitGroup
+		for c := 0; c < sc.Callers; c++ {
+			c := c
+			wg.Add(1)
+			vs.Go(fmt.Sprintf("dependant%d", c), func() {
+				defer wg.Done()
+				err := reg.LoadOutputs(ctx, tgt, tr, nil)
+				if err == nil {
+					check(c)
+				} else {
+					mu.Lock()
+					errs = append(errs, err)
+					mu.Unlock()
+				}
+			})
+		}
+		wg.Wait()
+	})
+	ex := explore.Exec{Res: res}
+	if res.Deadlock {
+		ex.Findings = append(ex.Findings, explore.Finding{Sig: "LOAD:load-outputs-never-returns", Detail: fmt.Sprint(res.Blocked)})
+	}
+	for _, p := range res.Panics {
+		ex.Findings = append(ex.Findings, explore.Finding{Sig: "LOAD:panic", Detail: p})
+	}
+	if len(errs) > 0 {
+		ex.Findings = append(ex.Findings, explore.Finding{Sig: "LOAD:load-outputs-fails-although-nothing-is-missing", Detail: fmt.Sprint(errs)})
+	}
+	if len(problems) > 0 {
+		ex.Findings = append(ex.Findings, explore.Finding{Sig: "LOAD:load-outputs-returns-before-the-outputs-are-restored", Detail: strings.Join(problems, "; ") + " (the dependant's command would read a missing or partial dependency output)"})
+	}
+	ex.Outcome = fmt.Sprintf("errs=%d problems=%d", len(errs), len(problems))
+	ex.Nontrivial = true
+	return ex
+}
+
 func (sc scenario) run(t *testing.T, cfg vs.Config) explore.Exec {
 	ws, _ := os.MkdirTemp(scratch, "ws")
 	defer os.RemoveAll(ws)
@@ -190,13 +266,25 @@ func (sc scenario) run(t *testing.T, cfg vs.Config) explore.Exec {
 		return sc.runLoad(t, cfg, ws, tgt, contents)
 	}
 	var hash string
-	var werr error
+	var werr, validationErr error
 	res := vs.Run(t, cfg, func() {
 		ctx := console.WithLogger(context.Background(), nop)
 		be := &pointBackend{store: map[string][]byte{}}
 		reg := output.NewRegistry(ctx, caching.NewCas(be))
-		tr, err := reg.WriteOutputs(ctx, tgt, nil)
+		var tr *gen.TargetResult
+		var err error
+		if sc.NoCache {
+			tr, err = reg.GetNoCacheOutputHash(ctx, tgt)
+		} else {
+			tr, err = reg.WriteOutputs(ctx, tgt, nil)
+		}
 		werr = err
+		if tr != nil && !sc.NoCache {
+			// whatever order the writers finished in, the stored result must be accepted when it is loaded
+			if verr := reg.ValidateTargetResult(tgt, tr); verr != nil {
+				validationErr = verr
+			}
+		}
 		if tr != nil {
 			hash = tr.OutputHash
 		}
@@ -207,6 +295,9 @@ func (sc scenario) run(t *testing.T, cfg vs.Config) explore.Exec {
 	}
 	if res.Deadlock {
 		ex.Findings = append(ex.Findings, explore.Finding{Sig: "C04:write-outputs-never-returns", Detail: fmt.Sprint(res.Blocked)})
+	}
+	if validationErr != nil {
+		ex.Findings = append(ex.Findings, explore.Finding{Sig: "C09:stored-result-rejected-depending-on-the-order-in-which-outputs-finish-writing", Detail: fmt.Sprintf("WriteOutputs succeeded but the result it stored is rejected when it is loaded (the target re-executes on every later cache hit): %v", validationErr)})
 	}
 	if f, ok := first[sc.name()]; !ok {
 		first[sc.name()] = hash
@@ -233,7 +324,8 @@ func TestVerif(t *testing.T) {
 	config.Global.HashAlgorithm = ""
 	bound := vrep.EnvInt("VERIF_BOUND", 2)
 	deadline := time.Now().Add(time.Duration(vrep.EnvInt("VERIF_BUDGET_S", 20)) * time.Second)
-	scs := []scenario{{Outputs: 2, Kind: "files"}, {Outputs: 3, Kind: "files"}, {Outputs: 2, Kind: "file+dir"}}
+	scs := []scenario{{Outputs: 2, Kind: "files"}, {Outputs: 3, Kind: "files"}, {Outputs: 2, Kind: "file+dir"},
+		{Outputs: 2, Kind: "files", NoCache: true}, {Outputs: 3, Kind: "files", NoCache: true}, {Outputs: 2, Kind: "file+dir", NoCache: true}}
 	if os.Getenv("VERIF_OUTORDER_MODE") == "load" {
 		scs = nil
 		for _, k := range []scenario{{Outputs: 2, Kind: "files"}, {Outputs: 3, Kind: "files"}, {Outputs: 2, Kind: "file+dir"}} {
@@ -241,6 +333,7 @@ func TestVerif(t *testing.T) {
 				scs = append(scs, scenario{Outputs: k.Outputs, Kind: k.Kind, Load: true, Missing: m})
 			}
 		}
+		scs = append(scs, scenario{Outputs: 2, Kind: "files", Load: true, Callers: 2}, scenario{Outputs: 2, Kind: "file+dir", Load: true, Callers: 2}, scenario{Outputs: 1, Kind: "files", Load: true, Callers: 3})
 	}
 	mk := func(sc scenario) explore.Scenario {
 		return explore.Scenario{Name: sc.name(), Desc: sc, Run: sc.run, Horizon: 2, MaxSteps: 3000}
